@@ -1143,5 +1143,337 @@ mutual
         · exact Or.inr ⟨r, a, b, c⟩
 end
 
+/-! ### has_prefix / subtree -/
+
+theorem hasPrefix_spec : ∀ (p : Path) (t : Trie), wf t = true → dollarFree p = true →
+    (t.truthy = true ∨ p ≠ []) →
+    ∃ b, hasPrefix t p = .ok b ∧ (b = true ↔ ∃ r, dollarFree r = true ∧ has t (p ++ r) = true) := by
+  intro p
+  induction p with
+  | nil =>
+    intro t h _ ht
+    rcases ht with ht | ht
+    · refine ⟨true, by cases t <;> rfl, ?_⟩
+      simp only [true_iff, List.nil_append]
+      exact exists_has_of_truthy t h ht
+    · exact absurd rfl ht
+  | cons k ks ih =>
+    intro t h hp _
+    rw [dollarFree_cons] at hp
+    cases t with
+    | mark => simp [wf] at h
+    | node kids =>
+      simp only [hasPrefix]
+      cases hl : Assoc.lookup kids k with
+      | none =>
+        refine ⟨false, rfl, ?_⟩
+        simp only [Bool.false_eq_true, false_iff]
+        rintro ⟨r, _, hr⟩
+        simp [has, hl] at hr
+      | some c =>
+        obtain ⟨kids', rfl, hw, htr⟩ := wf_node_lookup h hp.1 hl
+        obtain ⟨b, hb, hiff⟩ := ih _ hw hp.2 (Or.inl htr)
+        refine ⟨b, hb, ?_⟩
+        rw [hiff]
+        simp [has, hl]
+
+theorem subtree_spec : ∀ (p : Path) (t : Trie), wf t = true → dollarFree p = true →
+    ∃ o, subtree t p = .ok o ∧
+      (match o with
+       | some t' => wf t' = true ∧ ∀ q, has t' q = has t (p ++ q)
+       | none => ∀ q, has t (p ++ q) = false) := by
+  intro p
+  induction p with
+  | nil => intro t h _; exact ⟨some t, by cases t <;> rfl, h, fun q => rfl⟩
+  | cons k ks ih =>
+    intro t h hp
+    rw [dollarFree_cons] at hp
+    cases t with
+    | mark => simp [wf] at h
+    | node kids =>
+      simp only [subtree]
+      cases hl : Assoc.lookup kids k with
+      | none => exact ⟨none, rfl, fun q => by simp [has, hl]⟩
+      | some c =>
+        obtain ⟨kids', rfl, hw, _⟩ := wf_node_lookup h hp.1 hl
+        obtain ⟨o, ho, hs⟩ := ih _ hw hp.2
+        refine ⟨o, ho, ?_⟩
+        cases o with
+        | none => intro q; simpa [has, hl] using hs q
+        | some t' => exact ⟨hs.1, fun q => by simpa [has, hl] using hs.2 q⟩
+
+/-! ### `==` is extensional equality of the represented sets -/
+
+theorem mem_iff_lookup {α : Type} : ∀ (l : List (Key × α)), Assoc.nodup l = true → ∀ k v,
+    ((k, v) ∈ l ↔ Assoc.lookup l k = some v) := by
+  intro l
+  induction l with
+  | nil => intro _ k v; simp [Assoc.lookup]
+  | cons kv rest ih =>
+    obtain ⟨k0, v0⟩ := kv
+    intro hn k v
+    simp only [Assoc.nodup, Bool.and_eq_true, Bool.not_eq_true'] at hn
+    simp only [List.mem_cons, Prod.mk.injEq, Assoc.lookup]
+    by_cases h0 : k0 = k
+    · subst h0
+      simp only [if_true, Option.some.injEq]
+      constructor
+      · rintro (⟨_, e⟩ | hm)
+        · exact e.symm
+        · have := Assoc.lookup_isSome_of_mem rest k0 v hm
+          have h1 := hn.1
+          unfold Assoc.hasKey at h1
+          rw [h1] at this; cases this
+      · intro e; exact Or.inl ⟨trivial, e.symm⟩
+    · simp only [h0, if_false]
+      rw [← ih hn.2 k v]
+      constructor
+      · rintro (⟨e, _⟩ | hm)
+        · exact absurd e.symm h0
+        · exact hm
+      · intro hm; exact Or.inr hm
+
+theorem subKids_iff : ∀ (a b : Kids), subKids a b = true ↔
+    ∀ kv ∈ a, ∃ w, Assoc.lookup b kv.1 = some w ∧ sub kv.2 w = true := by
+  intro a
+  induction a with
+  | nil => intro b; simp [subKids]
+  | cons kv rest ih =>
+    obtain ⟨k, v⟩ := kv
+    intro b
+    simp only [subKids, Bool.and_eq_true, ih b, List.mem_cons, forall_eq_or_imp]
+    constructor
+    · rintro ⟨h1, h2⟩
+      refine ⟨?_, h2⟩
+      cases hl : Assoc.lookup b k with
+      | none => rw [hl] at h1; simp at h1
+      | some w => rw [hl] at h1; exact ⟨w, rfl, h1⟩
+    · rintro ⟨⟨w, hl, hs⟩, h2⟩
+      exact ⟨by rw [hl]; exact hs, h2⟩
+
+theorem sub_has : ∀ (q : Path) (a b : Trie), wf a = true → wf b = true → dollarFree q = true →
+    sub a b = true → has a q = true → has b q = true := by
+  intro q
+  induction q with
+  | nil =>
+    intro a b ha hb _ hs hq
+    cases a with
+    | mark => simp [wf] at ha
+    | node ak =>
+      cases b with
+      | mark => simp [wf] at hb
+      | node bk =>
+        simp only [sub, subKids_iff] at hs
+        simp only [has, Assoc.hasKey] at hq ⊢
+        cases hl : Assoc.lookup ak dollar with
+        | none => rw [hl] at hq; cases hq
+        | some v =>
+          obtain ⟨w, hw, _⟩ := hs (dollar, v) ((mem_iff_lookup ak (wfKids_nodup ak ha) dollar v).mpr hl)
+          simp only at hw
+          rw [hw]; rfl
+  | cons k ks ih =>
+    intro a b ha hb hq hs hh
+    rw [dollarFree_cons] at hq
+    cases a with
+    | mark => simp [wf] at ha
+    | node ak =>
+      cases b with
+      | mark => simp [wf] at hb
+      | node bk =>
+        simp only [sub, subKids_iff] at hs
+        simp only [has] at hh ⊢
+        cases hl : Assoc.lookup ak k with
+        | none => rw [hl] at hh; cases hh
+        | some v =>
+          rw [hl] at hh
+          obtain ⟨w, hw, hsub⟩ := hs (k, v) ((mem_iff_lookup ak (wfKids_nodup ak ha) k v).mpr hl)
+          simp only at hw hsub
+          rw [hw]
+          obtain ⟨_, rfl, hvw, _⟩ := wf_node_lookup ha hq.1 hl
+          obtain ⟨_, rfl, hww, _⟩ := wf_node_lookup hb hq.1 hw
+          exact ih _ _ hvw hww hq.2 hsub hh
+
+theorem sub_of_has : ∀ (n : Nat) (a b : Trie), size a ≤ n → wf a = true → wf b = true →
+    (∀ q, dollarFree q = true → has a q = true → has b q = true) → sub a b = true := by
+  intro n
+  induction n with
+  | zero => intro a b hs; cases a <;> simp [size] at hs
+  | succ n ih =>
+    intro a b hsz ha hb himp
+    cases a with
+    | mark => simp [wf] at ha
+    | node ak =>
+      cases b with
+      | mark => simp [wf] at hb
+      | node bk =>
+        simp only [sub, subKids_iff]
+        intro kv hm
+        obtain ⟨k, v⟩ := kv
+        have hl := (mem_iff_lookup ak (wfKids_nodup ak ha) k v).mp hm
+        have hv := wfKids_lookup ak ha k v hl
+        by_cases hd : k = dollar
+        · subst hd
+          simp only [if_true] at hv
+          have h1 : has (.node ak) [] = true := by simp [has, Assoc.hasKey, hl]
+          have h2 := himp [] rfl h1
+          simp only [has, Assoc.hasKey] at h2
+          cases hlb : Assoc.lookup bk dollar with
+          | none => rw [hlb] at h2; cases h2
+          | some w =>
+            have hwm := wfKids_lookup bk hb dollar w hlb
+            simp only [if_true] at hwm
+            refine ⟨w, rfl, ?_⟩
+            cases v with
+            | node _ => simp [isMark] at hv
+            | mark => cases w with
+              | node _ => simp [isMark] at hwm
+              | mark => rfl
+        · simp only [hd, if_false] at hv
+          obtain ⟨vk, rfl, hvw, hvt⟩ := wf_node_lookup ha hd hl
+          obtain ⟨q, hq, hhq⟩ := exists_has_of_truthy _ hvw hvt
+          have h1 : has (.node ak) (k :: q) = true := by simp [has, hl, hhq]
+          have h2 := himp (k :: q) (by rw [dollarFree_cons]; exact ⟨hd, hq⟩) h1
+          simp only [has] at h2
+          cases hlb : Assoc.lookup bk k with
+          | none => rw [hlb] at h2; cases h2
+          | some w =>
+            obtain ⟨wk, rfl, hww, _⟩ := wf_node_lookup hb hd hlb
+            refine ⟨_, rfl, ?_⟩
+            have hlt := size_lookup_lt ak k _ hl
+            apply ih _ _ (by omega) hvw hww
+            intro q' hq' hh'
+            have h3 : has (.node ak) (k :: q') = true := by simp [has, hl, hh']
+            have h4 := himp (k :: q') (by rw [dollarFree_cons]; exact ⟨hd, hq'⟩) h3
+            simpa [has, hlb] using h4
+
+/-- `s1 == s2` (dict equality of the tries) iff the two sets have the same members. -/
+theorem beq_iff (a b : Trie) (ha : wf a = true) (hb : wf b = true) :
+    beq a b = true ↔ ∀ q, dollarFree q = true → has a q = has b q := by
+  unfold beq
+  rw [Bool.and_eq_true]
+  constructor
+  · rintro ⟨h1, h2⟩ q hq
+    cases hx : has a q with
+    | true => exact (sub_has q a b ha hb hq h1 hx).symm
+    | false =>
+      cases hy : has b q with
+      | false => rfl
+      | true => rw [sub_has q b a hb ha hq h2 hy] at hx; cases hx
+  · intro h
+    exact ⟨sub_of_has _ a b (Nat.le_refl _) ha hb (fun q hq hh => by rw [← h q hq]; exact hh),
+           sub_of_has _ b a (Nat.le_refl _) hb ha (fun q hq hh => by rw [h q hq]; exact hh)⟩
+
 end Trie
+/-! ### Escaping of user keys (fix C10-F19) -/
+
+theorem escKey_ne_dollar (k : Key) : escKey k ≠ dollar := by
+  cases k with
+  | i z => simp [escKey, dollar]
+  | s s =>
+    simp only [escKey]
+    by_cases h : allDollars s = true
+    · simp only [h, if_true, dollar]
+      intro e
+      injection e with e
+      injection e with _ e
+      subst e
+      simp [allDollars] at h
+    · simp only [h]
+      intro e
+      simp only [dollar] at e
+      injection e with e
+      subst e
+      exact h (by decide)
+
+theorem unescKey_escKey (k : Key) : unescKey (escKey k) = k := by
+  cases k with
+  | i z => rfl
+  | s s =>
+    simp only [escKey]
+    by_cases h : allDollars s = true
+    · simp [h, unescKey]
+    · simp only [h]
+      cases s with
+      | nil => rfl
+      | cons c rest =>
+        simp only [unescKey]
+        by_cases hc : c = '$' ∧ allDollars rest = true
+        · exfalso
+          apply h
+          simp only [allDollars, List.isEmpty_cons, Bool.not_false, Bool.true_and, List.all_cons,
+            Bool.and_eq_true, decide_eq_true_eq]
+          refine ⟨hc.1, ?_⟩
+          have := hc.2
+          simp only [allDollars, Bool.and_eq_true] at this
+          exact this.2
+        · simp [hc]
+
+theorem escKey_unescKey (k : Key) (h : k ≠ dollar) : escKey (unescKey k) = k := by
+  cases k with
+  | i z => rfl
+  | s s =>
+    cases s with
+    | nil => rfl
+    | cons c rest =>
+      simp only [unescKey]
+      by_cases hc : c = '$' ∧ allDollars rest = true
+      · simp only [hc, and_self, if_true, escKey, hc.1]
+      · simp only [hc, if_false, escKey]
+        by_cases ha : allDollars (c :: rest) = true
+        · exfalso
+          simp only [allDollars, List.isEmpty_cons, Bool.not_false, Bool.true_and, List.all_cons,
+            Bool.and_eq_true, decide_eq_true_eq] at ha
+          cases rest with
+          | nil => exact h (by rw [ha.1]; rfl)
+          | cons d rest' =>
+            apply hc
+            refine ⟨ha.1, ?_⟩
+            simp only [allDollars, List.isEmpty_cons, Bool.not_false, Bool.true_and]
+            exact ha.2
+        · simp [ha]
+
+theorem escKey_injective (a b : Key) (h : escKey a = escKey b) : a = b := by
+  rw [← unescKey_escKey a, ← unescKey_escKey b, h]
+
+theorem escP_injective (p q : Path) (h : escP p = escP q) : p = q := by
+  induction p generalizing q with
+  | nil => cases q <;> simp [escP] at h ⊢
+  | cons a p ih =>
+    cases q with
+    | nil => simp [escP] at h
+    | cons b q =>
+      simp only [escP, List.map_cons, List.cons.injEq] at h
+      rw [escKey_injective a b h.1, ih q h.2]
+
+theorem dollarFree_escP (p : Path) : dollarFree (escP p) = true := by
+  unfold dollarFree escP
+  rw [List.all_eq_true]
+  intro k hk
+  obtain ⟨k', _, rfl⟩ := List.mem_map.mp hk
+  simpa using escKey_ne_dollar k'
+
+theorem unescP_escP (p : Path) : unescP (escP p) = p := by
+  unfold unescP escP
+  rw [List.map_map]
+  conv => rhs; rw [← List.map_id p]
+  apply List.map_congr_left
+  intro k _
+  exact unescKey_escKey k
+
+theorem escP_unescP (p : Path) (h : dollarFree p = true) : escP (unescP p) = p := by
+  unfold unescP escP
+  rw [List.map_map]
+  conv => rhs; rw [← List.map_id p]
+  apply List.map_congr_left
+  intro k hk
+  unfold dollarFree at h
+  rw [List.all_eq_true] at h
+  exact escKey_unescKey k (by simpa using h k hk)
+
+theorem decide_escP_eq (p q : Path) : decide (escP q = escP p) = decide (q = p) := by
+  by_cases h : q = p
+  · subst h; simp
+  · have : ¬ escP q = escP p := fun e => h (escP_injective q p e)
+    simp [h, this]
+
 end Pg.C10
